@@ -463,6 +463,43 @@ func runC17(p *core.Prog, r *core.Report) {
 			r5.Check(okc, core.FuncName(sfn)+"#return", p.InstrPos(ret), "return on close only", "the flush scheduler can stop while the cache is still open: nothing is flushed afterwards")
 		}
 	}
+	// R6 put-time and recount-time sizes are sizes of the same thing
+	r6 := r.Rule("C17.R6", "put accounts len(data) and the recount on open accounts the length of each file (FSTree.IterateSizes): the cache's own tree is therefore configured to write one plain file per object (combined-write count limit below 2), so a file's length is its object's length", 1)
+	cacheFilesArePlain(p, r, r6)
+	r.Explain += " (R6) the size accounted at put is len(data), the size accounted when counters are rebuilt on open is the length of each file; the cache's FSTree is constructed with a combined-write count limit below 2, so each object is one plain file of exactly that length (with combined writes a file carries a prefix and possibly other objects, and the recount over-reports)."
+}
+
+// cacheFilesArePlain: as long as the recount goes by file length, every fstree.New in package writecache gets
+// WithCombinedCountLimit(k) with a constant k < 2.
+func cacheFilesArePlain(p *core.Prog, r *core.Report, h *core.RuleH) {
+	fns := p.FuncsIn("pkg/local_object_storage/writecache")
+	bySize := core.CallSites(fns, func(s core.Site) bool { return s.Name == "(*"+fst+"FSTree).IterateSizes" })
+	news := core.CallSites(fns, func(s core.Site) bool { return s.Name == fst+"New" })
+	if len(news) == 0 {
+		r.Fatalf("C17.R6: the write-cache no longer constructs an FSTree")
+		return
+	}
+	for _, s := range news {
+		key := core.FuncName(core.Outer(s.Fn)) + "#tree-options"
+		if len(bySize) == 0 {
+			h.Check(true, key, p.InstrPos(s.Call), "the recount does not go by file length", "")
+			continue
+		}
+		plain := false
+		for _, o := range core.CallSites([]*ssa.Function{s.Fn}, func(o core.Site) bool { return o.Name == fst+"WithCombinedCountLimit" }) {
+			c, ok := o.Call.(*ssa.Call)
+			if !ok || !feedsCall(c, fst+"New", 6, map[ssa.Value]bool{}) {
+				continue
+			}
+			k, isK := intConstOf(c.Call.Args[0])
+			plain = isK && k < 2
+			if !plain {
+				break
+			}
+		}
+		h.Check(plain, key, p.InstrPos(s.Call), "one plain file per object",
+			"the write-cache's tree may write combined files (no constant combined-write count limit below 2) while the recount on open ("+core.FuncName(core.Outer(bySize[0].Fn))+") takes each file's length as the object's size: after a restart the reported size exceeds what the cache holds and puts are refused early")
+	}
 }
 
 // isMapWrite: "assign"/"delete" when in writes the map stored in the named field.
